@@ -5,14 +5,6 @@ From Coq Require Import ZArith Lia Bool Floats.SpecFloat.
 From YK Require Import Base.Int64 Base.Int64Laws Base.F64 Base.Res Base.ResSpec.
 Open Scope Z_scope.
 
-(* x is a canonical binary64 datum other than NaN (what every IEEE operation returns) *)
-Definition f_valid (x : f64) : bool :=
-  match x with
-  | S754_finite _ m e => bounded prec emax m e
-  | S754_nan => false
-  | _ => true
-  end.
-
 Lemma f_two63_eq : f_two63 = S754_finite false 4503599627370496 11.
 Proof. vm_compute. reflexivity. Qed.
 Lemma f_mtwo63_eq : f_mtwo63 = S754_finite true 4503599627370496 11.
@@ -74,6 +66,9 @@ Proof. intros Hb He. destruct (bounded_facts m e Hb) as (Hm & Hr & Hn). unfold m
 Lemma f_trunc_finite s m e : f_trunc (S754_finite s m e) = if s then - mag m e else mag m e.
 Proof. reflexivity. Qed.
 
+Lemma pos_cmp_Z a b : Pos.compare_cont Eq a b = (Zpos a ?= Zpos b).
+Proof. reflexivity. Qed.
+
 (* the three-way test of mulValRatio on a valid product *)
 Lemma ratio_test_clamp p : f_valid p = true ->
   (if f_geb p f_two63 then MAX else if f_ltb p f_mtwo63 then MIN else f_to_int64 p) = clamp (f_trunc_ext p).
@@ -100,23 +95,75 @@ Proof.
       destruct s; cbn [SFcompare].
       * (* negative: below -2^63 unless it is exactly -2^63 *)
         destruct (Z.compare_spec e 11) as [E|E|E]; [|lia|].
-        -- subst e. rewrite Pos.compare_cont_spec. cbn [Pos.switch_Eq CompOpp].
-           destruct (Pos.compare_spec m 4503599627370496) as [Em|Em|Em].
-           ++ subst m. vm_compute. reflexivity.
-           ++ exfalso. lia.
-           ++ cbn [CompOpp]. unfold clamp, MIN. destruct (Z.ltb_spec (- mag m 11) (- 2^63)); [reflexivity|].
-              exfalso. rewrite Hmag in *. lia.
-        -- unfold clamp, MIN. destruct (Z.ltb_spec (- mag m e) (- 2^63)); [reflexivity|].
-           exfalso. rewrite Hmag in *.
-           assert (2^12 <= 2^e) by (apply Z.pow_le_mono_r; lia).
-           assert (2^52 * 2^12 <= Zpos m * 2^e) by (apply Z.mul_le_mono_nonneg; lia). lia.
+        -- subst e. rewrite pos_cmp_Z.
+           destruct (Z.compare_spec (Zpos m) 4503599627370496) as [Em|Em|Em].
+           ++ inversion Em; subst m. vm_compute. reflexivity.
+           ++ exfalso. clear - Em Hn. lia.
+           ++ cbn [CompOpp]. unfold clamp, MIN. destruct (Z.ltb_spec (- mag m 11) (- 2^63)) as [|Hge]; [reflexivity|].
+              exfalso. rewrite Hmag in Hge. clear - Em Hge. lia.
+        -- unfold clamp, MIN. destruct (Z.ltb_spec (- mag m e) (- 2^63)) as [|Hge]; [reflexivity|].
+           exfalso. rewrite Hmag in Hge.
+           assert (H12 : 2^12 <= 2^e) by (apply Z.pow_le_mono_r; lia).
+           assert (H64 : 2^52 * 2^12 <= Zpos m * 2^e) by (apply Z.mul_le_mono_nonneg; lia).
+           change (2^52 * 2^12) with (2^64) in H64. set (P := Zpos m * 2^e) in *. clear - Hge H64. lia.
       * (* positive: at least 2^63 *)
         assert (Hge : match (match 11 ?= e with Eq => Pos.compare_cont Eq 4503599627370496 m | Lt => Lt | Gt => Gt end)
                       with Eq | Lt => true | Gt => false end = true).
         { destruct (Z.compare_spec 11 e) as [E|E|E]; [|reflexivity|lia].
-          rewrite Pos.compare_cont_spec. cbn [Pos.switch_Eq].
-          destruct (Pos.compare_spec 4503599627370496 m) as [Em|Em|Em]; try reflexivity. exfalso. lia. }
-        rewrite Hge. unfold clamp, MIN, MAX.
-        destruct (Z.ltb_spec (mag m e) (- 2^63)); [lia|].
-        destruct (Z.ltb_spec (2^63 - 1) (mag m e)); [reflexivity|lia].
+          rewrite pos_cmp_Z.
+          destruct (Z.compare_spec 4503599627370496 (Zpos m)) as [Em|Em|Em]; try reflexivity. exfalso. clear - Em Hn. lia. }
+        rewrite Hge. unfold clamp, MIN, MAX. set (M := mag m e) in *. clearbody M.
+        destruct (Z.ltb_spec M (- 2^63)) as [H1|H1]; [exfalso; clear - H1 Hbig; lia|].
+        destruct (Z.ltb_spec (2^63 - 1) M) as [H2|H2]; [reflexivity|exfalso; clear - H2 Hbig; lia].
 Qed.
+
+Lemma f_to_int64_in_range p : in_range (f_to_int64 p).
+Proof. unfold f_to_int64, in_range, MIN, MAX. destruct p as [s|s| |s m e]; try lia.
+  set (v := f_trunc (S754_finite s m e)). clearbody v.
+  destruct (Z.ltb_spec v (- 2^63)); cbn [orb]; [lia|]. destruct (Z.ltb_spec (2^63 - 1) v); lia. Qed.
+
+(* for ALL inputs (any int64 or not, any ratio including NaN and infinities) the result is an int64 *)
+Theorem mulValRatio_in_range v r : in_range (mulValRatio v r).
+Proof. unfold mulValRatio. destruct ((v =? 0) || f_is_zero r); [apply in_range_0|]. cbv zeta.
+  destruct (f_geb _ _); [apply in_range_MAX|]. destruct (f_ltb _ _); [apply in_range_MIN|]. apply f_to_int64_in_range. Qed.
+
+(* FULL statement (mulValRatio_clamp), not proved here:
+     forall v r, in_range v -> f_valid r = true -> mulValRatio v r = mulValRatio_spec v r
+   i.e.  mulValRatio v r = clamp (trunc (float64 v (x) r))  for every non-NaN ratio.
+   Proved below under the hypothesis that the binary64 product computed by SpecFloat is a canonical
+   datum. What is missing is the meta-theorem that SFmul / binary_normalize only return canonical
+   data (Flocq: Bmult_correct, binary_round_aux_correct); it is not re-proved over plain SpecFloat.
+   The correspondence run evaluates f_valid on every generated product (oracle), see notes/res.md. *)
+Theorem mulValRatio_clamp_partial v r :
+  f_valid (f_mul (f_of_Z v) r) = true -> mulValRatio v r = mulValRatio_spec v r.
+Proof.
+  unfold mulValRatio, mulValRatio_spec. intros Hv.
+  destruct (Z.eqb_spec v 0) as [->|Hv0]; cbn [orb].
+  - change (f_of_Z 0) with (S754_zero false) in *.
+    destruct r as [s|s| |s m e]; cbn in Hv |- *; try discriminate; reflexivity.
+  - destruct (f_is_zero r) eqn:Hz.
+    + destruct r as [s|s| |s m e]; try discriminate.
+      destruct (f_of_Z v) as [s'|s'| |s' m' e']; cbn in Hv |- *; try discriminate; reflexivity.
+    + cbv zeta. apply ratio_test_clamp. assumption.
+Qed.
+
+(* the pinned comparison  result > MaxInt64  let the product 2^63 through to the conversion *)
+Theorem mulValRatio_pinned_refuted :
+  exists v r, in_range v /\ f_valid r = true /\ f_valid (f_mul (f_of_Z v) r) = true /\
+              mulValRatio_pinned v r <> mulValRatio_spec v r.
+Proof. exists MAX, f_one. repeat split; try (vm_compute; congruence). Qed.
+Example mulValRatio_examples :
+  mulValRatio MAX f_one = MAX /\ mulValRatio (2^62) (f_of_Z 2) = MAX /\ mulValRatio MIN f_one = MIN /\
+  mulValRatio 7 (f_div f_one (f_of_Z 2)) = 3 /\ mulValRatio (-7) (f_div f_one (f_of_Z 2)) = -3 /\
+  mulValRatio_pinned MAX f_one = MIN /\ mulValRatio_pinned (2^62) (f_of_Z 2) = MIN /\
+  f_valid (f_mul (f_of_Z 7) (f_div f_one (f_of_Z 2))) = true.
+Proof. vm_compute. repeat split. Qed.
+
+(* MultiplyBy component-wise *)
+From Coq Require Import List. Import ListNotations.
+From YK Require Import Base.ResLemmas Base.ResLaws.
+Theorem MultiplyBy_get_partial b ratio k :
+  (forall x, get (oget b) k = Some x -> f_valid (f_mul (f_of_Z x) ratio) = true) ->
+  get (MultiplyBy b ratio) k = mulBy_at ratio (get (oget b) k).
+Proof. intros H. rewrite MultiplyBy_get. unfold mulBy_at. destruct (get (oget b) k) as [x|]; [|reflexivity].
+  destruct (f_is_zero ratio); [reflexivity|]. rewrite mulValRatio_clamp_partial; [reflexivity|]. apply H. reflexivity. Qed.
